@@ -442,19 +442,23 @@ func imageRows(t *Table, img *atrun.Image) ([]Row, []bool, bool) {
 		}
 		seenKey := 0
 		for _, c := range r {
-			v, ok := imageVal(c.Value)
-			if !ok {
-				return nil, nil, false
-			}
 			hit := false
 			for i, k := range t.Keys {
 				if strings.EqualFold(k.Name, c.Name) {
+					v, ok := canonCell(k, c.Value.K, c.Value.V)
+					if !ok {
+						return nil, nil, false
+					}
 					row.Key[i], hit = v, true
 					seenKey++
 				}
 			}
 			for i, k := range t.Cols {
 				if strings.EqualFold(k.Name, c.Name) {
+					v, ok := canonCell(k, c.Value.K, c.Value.V)
+					if !ok {
+						return nil, nil, false
+					}
 					row.Vals[i], hit = v, true
 					if ri == 0 {
 						mask[i] = true
